@@ -339,6 +339,22 @@ def positive_set_attr(cls, attr):
     return src(v.elt) == kv and conds in (["'positive'in%s" % vv], ["'positive'in%s[1:]" % vv])
 
 
+def check_hyperparameters_as_given(ctx, cls):
+    """The densities are computed from the hyper-parameters the user wrote (Python numbers): they are not packed into a NumPy array on the
+    way - an all-integer specification would become fixed-width integers, whose powers (rate ** shape) wrap around silently."""
+    bad = []
+    for fn_ in [x for x in cls.body if isinstance(x, ast.FunctionDef)]:
+        for c in ast.walk(fn_):
+            if isinstance(c, ast.Call) and src(c.func).replace(' ', '') in ('np.array', 'np.asarray', 'numpy.array', 'numpy.asarray', 'np.fromiter') and c.args:
+                a0 = src(c.args[0])
+                kw = {k_.arg: src(k_.value) for k_ in c.keywords}
+                if ('prior' in a0) and kw.get('dtype', '').replace('np.', '').replace("'", '') not in ('float', 'float64', 'double'):
+                    bad.append('%s(): `%s` (%s)' % (fn_.name, src(c)[:60], ctx.loc('pid_interfaces', c)))
+    f = method(cls, 'check_prior')
+    ctx.ob('R16.1-density', 'hyperparameters-as-given', not bad, ctx.loc('pid_interfaces', f),
+           'prior hyper-parameters reach the density formulas as the numbers given, not through an integer-typed NumPy array', '; '.join(bad[:2]))
+
+
 def check_aggregation(ctx, cls):
     f = method(cls, 'check_prior')
     where = ctx.loc('pid_interfaces', f)
@@ -552,6 +568,7 @@ def check_rejection(ctx):
 def check(ctx):
     ctx.prog.mod('pid_interfaces')
     cls = find_class(ctx)
+    check_hyperparameters_as_given(ctx, cls)
     check_density(ctx, cls)
     check_support(ctx, cls)
     check_aggregation(ctx, cls)
